@@ -573,14 +573,12 @@ def _keystr(path):
 # oracle
 # ---------------------------------------------------------------------------
 def _features(mod, rules, nest=None, trim=None, **more):
+    """Signature features: deliberately only what the clause itself names
+    (one defect should give one or two signatures); the option combination
+    and the rule set are in the recorded case."""
     f = {}
     if nest is not None:
         f['nest'] = bool(nest)
-    if trim is not None:
-        f['trim'] = bool(trim)
-    f['nested_rule'] = 'r/d' in mod['rule_dirs']
-    f['filtered'] = any(r[1] for r, s in zip(rules, mod['status'])
-                        if s == 'dir')
     f.update(more)
     return f
 
@@ -630,8 +628,8 @@ def check_population(m, recorder, mod, rules, nest, trim, pops, raised,
                     'file_reachable',
                     f'population {pops}: expected a handle for {want} under '
                     f'key {key!r}, get() returned {type(got).__name__}',
-                    **_features(mod, rules, trim=trim,
-                                got=type(got).__name__)), facts
+                    **_features(mod, rules, got=type(got).__name__,
+                                trimmed_key=key not in newest[2])), facts
             lab = label(got)
             all_labels = [(p, ri, f) for p, ri, fs in gs for f in fs]
             if not (lab[0] == newest[0] and lab[1] == newest[1]
@@ -648,7 +646,8 @@ def check_population(m, recorder, mod, rules, nest, trim, pops, raised,
                     f'population {pops}: key {key!r} holds a handle built as '
                     f'(population, rule, file) {lab}, expected '
                     f'{(newest[0], newest[1], want)}',
-                    **_features(mod, rules, trim=trim, got='other')), facts
+                    **_features(mod, rules, got='other',
+                                trimmed_key=key not in newest[2])), facts
             stack = stacks.get(key, [])
             if not stack or stack[0] is not got:
                 return Violation(
@@ -729,7 +728,9 @@ def check_population(m, recorder, mod, rules, nest, trim, pops, raised,
                     'directory_is_submap',
                     f'directory {d!r} leads to an accepted file but get() '
                     f'returned {type(got).__name__}',
-                    **_features(mod, rules, trim=trim)), facts
+                    **_features(
+                        mod, rules,
+                        listed=d not in mod['implicit_required'])), facts
         if mod['implicit_required']:
             facts['implicit_submap'] = 1
 
